@@ -259,6 +259,16 @@ def run(P, rep, tier):
         if n == 0:
             rep.undecided('R20.1', '%s:gen_expr:%s' % (U, kind), 'no returning path for a kind gen_expr has an arm for')
     r_calls(cg, P, rep, tier)
+    rep.rule('R20.7', 'every gen_addr arm: machine-stack effect 0 and x87 effect 0 (an address is left in %rax only), assuming the contract of its children; an operand evaluated only for its side effects is discarded there as well', floor=5)
+    ahandled = expr_kinds_handled(cg, 'gen_addr')
+    if len(ahandled) < 4:
+        raise AnalysisBroken('gen_addr: only %d node kinds recognised in its switch' % len(ahandled))
+    for kind in cg.node_kinds:
+        if kind not in ahandled or kind == 'ND_FUNCALL':      # gen_addr of a call is gen_expr of the call: R20.5
+            continue
+        n = check_kind(cg, rep, 'R20.7', 'gen_addr', kind, preset(cg, kind))
+        if n == 0:
+            rep.undecided('R20.7', '%s:gen_addr:%s' % (U, kind), 'no returning path for a kind gen_addr has an arm for')
     from .c04 import r_alloca
     rep.rule('R20.6', 'alloca moves every pending pushed temporary down with %rsp (full byte count, same distance), so later pops read what was pushed', floor=5)
     r_alloca(cg, rep, rule='R20.6')
@@ -297,10 +307,10 @@ def r_calls(cg, P, rep, tier):
                 rep.ob('R20.5', key + ':x87', n87 == 0, 'after the call %d long double argument value(s) are still on the x87 stack' % n87, where=where)
 
 
-def expr_kinds_handled(cg):
-    """node kinds for which gen_expr has a case label (recovered from its switches)"""
+def expr_kinds_handled(cg, fname='gen_expr'):
+    """node kinds for which gen_expr (or gen_addr) has a case label (recovered from its switches)"""
     ks = set()
-    fn = cg.cu.fn('gen_expr')
+    fn = cg.cu.fn(fname)
     val2name = {cg.E[k]: k for k in cg.node_kinds}
     for n in fn.walk():
         if n.kind == 'CaseStmt':
